@@ -77,6 +77,32 @@ Fixpoint feval (f : fexpr) (kw : kwargs) : option bool :=
   match f with
   | FVar k => option_map truthy (kw_get k kw)
   | FCmp op k lit => match kw_get k kw with Some v => py_cmp op v lit | None => None end
+  | FInt op k lit =>
+      (* int(v): numbers and bools convert; the strings the generator uses are never numerals (ValueError), None and
+         containers raise TypeError *)
+      match kw_get k kw with
+      | Some v => match num_of v with Some z => py_cmp op (VInt z) (VInt lit) | None => None end
+      | None => None
+      end
+  | FDiv op k lit =>
+      match kw_get k kw with
+      | Some v => match num_of v with
+                  | Some z => if Z.eqb z 0 then None else py_cmp op (VInt (6 / z)) (VInt lit)   (* Z.div = Python // *)
+                  | None => None
+                  end
+      | None => None
+      end
+  | FLookup k tbl =>
+      match kw_get k kw with
+      | Some v => match v with
+                  | VOther _ _ => None                                  (* list / dict: unhashable -> TypeError *)
+                  | _ => match num_of v with
+                         | Some z => match find (fun e => Z.eqb (fst e) z) tbl with Some e => Some (snd e) | None => None end
+                         | None => None                                 (* str / None / Context: KeyError *)
+                         end
+                  end
+      | None => None
+      end
   | FNot a => option_map negb (feval a kw)
   | FAnd a b => match feval a kw with Some true => feval b kw | r => r end
   | FOr a b => match feval a kw with Some false => feval b kw | r => r end
